@@ -308,6 +308,10 @@ func checkC15(w *World, r *Report) {
 	r.Trusted = []string{"net/http serves each request on its own goroutine", "calls into libraries are non-blocking unless listed as blocking primitives"}
 	r.Rule("R15.1", "server listener accept loops hand the peer handshake to a goroutine", 2)
 	r.Rule("R15.2", "no server-side goroutine re-locks a mutex it already holds (one stale peer must not wedge the user table)", 1)
+	r.Rule("R15.3", "nothing waits for a peer while the table of all DNS peers is locked", 1)
+	ruleNoWaitUnderLock(w, r, "R15.3", func(m *types.Var) bool {
+		return m.Name() == "usersLock" || strings.HasPrefix(fieldOwner(m), "server.")
+	}, "every other peer that needs this lock (new sessions, closes, the pruner) waits as long as this one peer chooses")
 	ruleNoReentrantLock(w, r, "R15.2", func(p string) bool {
 		return p == modPath+"/internal/server" || strings.HasPrefix(p, modPath+"/internal/streams")
 	})
@@ -375,6 +379,7 @@ func checkC17(w *World, r *Report) {
 	r.Rule("R17.1", "close only after the copy into that side finished; EOF reported only after a clean copy", 2)
 	r.Rule("R17.2", "both ends closed after PipeData on every path", 3)
 	r.Rule("R17.3", "DNS end-of-stream only after buffered data; client Close notifies the server first", 3)
+	r.Rule("R17.6", "after the first copier reported, no close waits for the second report", 1)
 	r.Rule("R17.5", "a reader+writer pair closes its write half on every path (the peer's end-of-stream)", 1)
 	r.Rule("R17.4", "open transfers are not cut by another logical connection's failure (who may close the shared session)", 2)
 	ruleR17_1(w, r)
@@ -653,6 +658,62 @@ func ruleSharedSessionClosers(w *World, r *Report, rule string) {
 	if n == 0 {
 		r.Undecided(rule, "close:Upstreams.*", "-", "no close of the shared connection found (Shutdown changed?)")
 	}
+	// Shutdown itself is the process-level teardown: only the command layer may call it. A call from the
+	// connection path (Connect / openStream / a listener) makes one logical connection's failure close the
+	// session of all the others.
+	shutdown := w.Method("internal/client/upstream", "Upstreams", "Shutdown")
+	if shutdown == nil {
+		r.Undecided(rule, "callers:Upstreams.Shutdown", "-", "anchor unresolved: Upstreams.Shutdown")
+		return
+	}
+	ncall := 0
+	bad := ""
+	for fn := range allModuleFuncs(w, w.SSA()) {
+		for _, c := range callsIn(fn) {
+			if sCallee(c) != shutdown {
+				continue
+			}
+			ncall++
+			f0 := fn
+			for f0.Parent() != nil {
+				f0 = f0.Parent()
+			}
+			pkg := ""
+			if f0.Pkg != nil {
+				pkg = f0.Pkg.Pkg.Path()
+			}
+			// resetting is fine where the shared session/connection is known dead already
+			deadTest := func(v ssa.Value) bool {
+				call, ok := v.(*ssa.Call)
+				if !ok {
+					return false
+				}
+				name := ""
+				var recv ssa.Value
+				if call.Call.IsInvoke() {
+					name, recv = call.Call.Method.Name(), call.Call.Value
+				} else if f := sCallee(call); f != nil && len(call.Call.Args) > 0 {
+					name, recv = f.Name(), call.Call.Args[0]
+				}
+				if name != "IsClosed" && name != "Closed" {
+					return false
+				}
+				for _, root := range provenance(recv, provOpts{}) {
+					if isLoadOfField(root, connF) || isLoadOfField(root, sessF) {
+						return true
+					}
+				}
+				return false
+			}
+			if ci, ok := c.(ssa.Instruction); ok && dominatedByCond(fn, ci, deadTest, true) {
+				continue
+			}
+			if strings.HasPrefix(pkg, modPath+"/internal/client") {
+				bad = fmt.Sprintf("%s: %s calls Upstreams.Shutdown from the connection path: a failure that concerns one logical connection (a refused channel name is answered on a healthy session) closes the physical session under every other transfer in flight", w.Pos(c.Pos()), ssaFuncKey(fn))
+			}
+		}
+	}
+	r.Check(bad == "", rule, "callers:Upstreams.Shutdown", w.Pos(shutdown.Pos()), fmt.Sprintf("%d call site(s) of Upstreams.Shutdown, none in the client's connection path", ncall), bad)
 }
 
 // onlyFromShutdown: fn is the Shutdown method, a closure inside it, or a
